@@ -108,6 +108,16 @@ def run_window_history(chk, spec):
 		chk.skip("window-history-prepare-failed")
 		return
 	t = o.value
+	vw = spec.get("value_write")
+	if vw == "none-and-float":
+		i, j = rng.sample(range(n), 2) if n > 1 else (0, 0)
+		call(lambda: t["v"].__setitem__([i, j], [None, 2.5]))
+	elif vw == "cancelling-floats" and n >= 3:
+		call(lambda: t["v"].__setitem__(slice(0, 3), [1e16, 1.0, -1e16]))
+		call(lambda: t["k"].__setitem__(slice(0, 3), ["a", "a", "a"]))
+	elif vw == "tenths" and n >= 3:
+		call(lambda: t["v"].__setitem__(slice(0, 3), [0.1, 0.2, 0.3]))
+		call(lambda: t["k"].__setitem__(slice(0, 3), ["b", "b", "b"]))
 	for _w in range(spec["writes"]):
 		i = rng.randrange(n)
 		col = rng.choice(["k", "k", "g"])
@@ -125,7 +135,7 @@ def run_window_history(chk, spec):
 		c12.run_aggregate(chk, s2, table=t)
 
 
-RUNNERS = {"window": run_window, "window_history": run_window_history, "agg_chain": c12.run_agg_chain}
+RUNNERS = {"window": run_window, "window_history": run_window_history, "agg_chain": c12.run_agg_chain, "label_keys": c12.run_label_keys}
 RUNNERS["recompute"] = recompute.runner("C13")
 
 
@@ -135,9 +145,11 @@ def run(chk):
 	for spec in c12.exhaustive_specs(chk, "window"):
 		chk.case("window", spec, "window-exhaustive")
 	c12.chain_cases(chk, "window")
+	c12.label_key_cases(chk, "window")
 	for _ in range(200 if chk.quick() else 1500):
 		chk.case("window_history", {"seed": rng.randrange(10**9), "n": rng.choice([3, 4, 6, 8]), "prepare": rng.choice(["sort-k", "sort-kg", "sort-gk", "plain", "window-first"]), "writes": rng.choice([0, 1, 2, 3]),
-			"over": rng.choice([["k"], ["k", "g"], ["g"], ["g", "k"]]), "key_mode": rng.choice(["name", "vector"]), "op": rng.choice(["window", "window", "aggregate"])}, "window-history")
+			"over": rng.choice([["k"], ["k", "g"], ["g"], ["g", "k"]]), "key_mode": rng.choice(["name", "vector"]), "op": rng.choice(["window", "window", "aggregate"]),
+			"value_write": rng.choice([None, None, "none-and-float", "cancelling-floats", "tenths"])}, "window-history")
 	for _ in range(700 if chk.quick() else 4000):
 		spec = common.gen_agg_spec(rng, max_rows=rng.choice([6, 10]) if chk.quick() else rng.choice([6, 10, 40, 150]), op="window")
 		chk.case("window", spec, "window-sampled")
